@@ -666,6 +666,80 @@ theorem applyAt_ids (d : Nat) (g : Graph) (m : Match) (new : List Node) (outs : 
   rw [this]
   rfl
 
+/-! ## Every name is defined once over all scopes (the clause C07-D7 violated before c9666a4) -/
+
+/-- `collectNames` lists the inputs, initializers and node outputs of a graph *and of all its bodies*.
+If it has no duplicates in the host, it has none after the splice, provided the replacement nodes
+carry no bodies and each of their outputs is either a name the root defined (name transfer) or a
+name outside `collectNames` of the host — which is what `_fresh_value_name` gives (`freshIn_spec`:
+a name not in the model-wide set, which contains `collectNames` of every graph). -/
+theorem applyAt_defs_once (d : Nat) (g : Graph) (pre0 post repl : List Node) (root : Node) (matched : List Nat)
+    (hg : g.nodes = pre0 ++ root :: post)
+    (hpre : ∀ n ∈ pre0, n.id ≠ root.id) (hpost : ∀ n ∈ post, n.id ≠ root.id)
+    (hroot : matched.contains root.id = true) (hpostU : ∀ n ∈ post, matched.contains n.id = false)
+    (hnew : ∀ n ∈ repl, matched.contains n.id = false)
+    (hflat : ∀ n ∈ repl, n.subs = [])
+    (hnd : (repl.flatMap (·.outputs)).Nodup)
+    (houts : ∀ x ∈ repl.flatMap (·.outputs), x ∈ root.outputs ∨ x ∉ collectNames (d + 1) g)
+    (h : (collectNames (d + 1) g).Nodup) :
+    (collectNames (d + 1) (g.setNodes (spliceNodes g.nodes root.id matched repl true))).Nodup := by
+  rw [hg, spliceNodes_eq pre0 post repl root matched hroot hpre hpost hpostU hnew]
+  have e : ∀ ns, collectNames (d + 1) (g.setNodes ns) = g.inputs ++ g.initNames ++ collectNamesNodes d ns := by
+    intro ns; cases g; rfl
+  have e0 : collectNames (d + 1) g = g.inputs ++ g.initNames ++ collectNamesNodes d g.nodes := by cases g; rfl
+  rw [e]
+  rw [e0, hg] at h houts
+  cases d with
+  | zero =>
+    simp only [collectNamesNodes, List.append_nil] at h ⊢
+    exact h
+  | succ d =>
+    rw [collectNamesNodes_append, collectNamesNodes_cons] at h houts
+    rw [collectNamesNodes_append, collectNamesNodes_append, collectNamesNodes_flat d repl hflat]
+    -- the four parts of the host, pairwise disjoint
+    obtain ⟨hA, hrest, hAd⟩ := List.nodup_append.mp h
+    obtain ⟨hP, hRP, hPd⟩ := List.nodup_append.mp hrest
+    obtain ⟨hR, hQ, hRd⟩ := List.nodup_append.mp hRP
+    have hU := collectNamesNodes_filter_nodup d (fun n => !(matched.contains n.id)) pre0 hP
+    have hUsub := collectNamesNodes_filter_sub d (fun n => !(matched.contains n.id)) pre0
+    -- where a new output can be
+    have hN : ∀ x ∈ repl.flatMap (·.outputs),
+        x ∉ g.inputs ++ g.initNames ∧ x ∉ collectNamesNodes (d + 1) pre0 ∧ x ∉ collectNamesNodes (d + 1) post := by
+      intro x hx
+      rcases houts x hx with hr | hf
+      · have hxR : x ∈ root.outputs ++ root.subs.flatMap (fun s => collectNames d s.2) :=
+          List.mem_append.mpr (Or.inl hr)
+        refine ⟨fun hm => hAd x hm x ?_ rfl, fun hm => hPd x hm x ?_ rfl, fun hm => hRd x hxR x hm rfl⟩
+        · exact List.mem_append.mpr (Or.inr (List.mem_append.mpr (Or.inl hxR)))
+        · exact List.mem_append.mpr (Or.inl hxR)
+      · refine ⟨fun hm => hf (List.mem_append.mpr (Or.inl hm)), fun hm => hf ?_, fun hm => hf ?_⟩
+        · exact List.mem_append.mpr (Or.inr (List.mem_append.mpr (Or.inl hm)))
+        · exact List.mem_append.mpr (Or.inr (List.mem_append.mpr (Or.inr (List.mem_append.mpr (Or.inr hm)))))
+    apply List.nodup_append.mpr
+    refine ⟨hA, ?_, ?_⟩
+    · apply List.nodup_append.mpr
+      refine ⟨hU, ?_, ?_⟩
+      · apply List.nodup_append.mpr
+        exact ⟨hnd, hQ, fun x hx y hy hxy => (hN x hx).2.2 (hxy ▸ hy)⟩
+      · intro x hx y hy hxy
+        subst hxy
+        rcases List.mem_append.mp hy with hy | hy
+        · exact (hN x hy).2.1 (hUsub x hx)
+        · exact hPd x (hUsub x hx) x (List.mem_append.mpr (Or.inr hy)) rfl
+    · intro x hx y hy hxy
+      subst hxy
+      rcases List.mem_append.mp hy with hy | hy
+      · exact hAd x hx x (List.mem_append.mpr (Or.inl (hUsub x hy))) rfl
+      · rcases List.mem_append.mp hy with hy | hy
+        · exact (hN x hy).1 hx
+        · exact hAd x hx x (List.mem_append.mpr (Or.inr (List.mem_append.mpr (Or.inr hy)))) rfl
+
+/-- non-vacuity: `exHost` (every name once), re-emission with a `val_k` interior name -/
+example : (collectNames 3 (exHost.setNodes (spliceNodes exHost.nodes 2 [2, 1]
+    [.mk 5 "Neg" "" "" [some "x"] ["val_1"] [] [] [] [], .mk 6 "Relu" "" "" [some "val_1"] ["r"] [] [] [] []] true))).Nodup :=
+  applyAt_defs_once 2 exHost [exNeg, exOther] [exAbs] _ exRelu [2, 1] rfl (by decide) (by decide) (by decide)
+    (by decide) (by decide) (by decide) (by decide) (by decide) (by decide)
+
 /-! ## Signature -/
 
 /-- All values the replacement returns are new values (fresh `%…` names). -/
@@ -884,34 +958,40 @@ theorem d10_fixed :
       fun r => (r.1, r.2.graph.inputs, r.2.graph.outputs)) = some (1, ["a"], ["z", "x"]) := by
   decide +kernel
 
-/-! ## Initializers (after fix 340a24c: a clashing new initializer is registered as `name_k`) -/
+/-! ## Initializers (after fixes 340a24c and c9666a4: a new initializer whose name is taken — in
+this graph's initializers or anywhere in the model — is registered as a model-wide fresh `name_k`) -/
 
-/-- **Unconditional** (no `FreshInitializerNames` hypothesis): whatever names the replacement asks
-for, registration only appends — every node, input, output and every existing initializer (name
-and value, in place) is untouched; one initializer per request is added with the requested value,
-under names that are new to the graph and pairwise distinct.  What remains outside the theorem:
-that the search for a free `name_k` succeeds (`registerInits … = some _`; the rendering searches
-`k ≤ |initializers|+1`, a free one exists by counting, which is not proved — the tie exercises it). -/
-theorem registerInits_adds_only (g g' : Graph) (is is' : List (Name × String))
-    (h : registerInits g is = some (g', is')) :
+/-- **No `FreshInitializerNames` hypothesis**: whatever names the replacement asks for, registration
+only appends — every node, input, output and every existing initializer (name and value, in place)
+is untouched; one initializer per request is added with the requested value, under names that are
+new to the graph *and to the whole model's name set*, pairwise distinct; the name set grows by
+exactly these names.  (`names` ⊇ the graph's initializer names is the invariant `apply_to_model`
+establishes by collecting all value names first.)  What remains outside the theorem: that the
+search for a free `name_k` succeeds (`= some _`; `k ≤ |names|+1` is searched, a free one exists by
+counting, which is not proved — the tie exercises it). -/
+theorem registerInits_adds_only (names names' : List Name) (g g' : Graph) (is is' : List (Name × String))
+    (hsub : ∀ z ∈ g.initNames, z ∈ names) (h : registerInits names g is = some (g', is', names')) :
     g'.nodes = g.nodes ∧ g'.inputs = g.inputs ∧ g'.outputs = g.outputs ∧ g'.inits = g.inits ++ is' ∧
-    is'.map (·.2) = is.map (·.2) ∧ (∀ y ∈ is'.map (·.1), y ∉ g.initNames) ∧ (is'.map (·.1)).Nodup :=
-  registerInits_spec is g g' is' h
+    is'.map (·.2) = is.map (·.2) ∧ (∀ y ∈ is'.map (·.1), y ∉ g.initNames ∧ y ∉ names) ∧ (is'.map (·.1)).Nodup ∧
+    names' = names ++ is'.map (·.1) :=
+  registerInits_spec is names g g' is' names' hsub h
 
-/-- names that are free are kept as requested -/
-theorem registerInits_keeps_free_name (g : Graph) (x : Name) (t : String) (h : x ∉ g.initNames) :
-    registerInits g [(x, t)] = some (g.setInits (g.inits ++ [(x, t)]), [(x, t)]) := by
-  simp [registerInits, freshInitName, h]
+/-- names that are free (in the graph and in the model) are kept as requested -/
+theorem registerInits_keeps_free_name (names : List Name) (g : Graph) (x : Name) (t : String)
+    (h : x ∉ g.initNames) (hn : x ∉ names) :
+    registerInits names g [(x, t)] = some (g.setInits (g.inits ++ [(x, t)]), [(x, t)], names ++ [x]) := by
+  simp [registerInits, freshInitName, h, hn]
 
 def d18Host : Graph :=
   .mk ["x"] [("one", "A")]
     [.mk 1 "Mul" "" "" [some "x", some "one"] ["a"] [] [] [] [],
      .mk 2 "Relu" "" "" [some "a"] ["z"] [] [] [] []] ["z"]
 
-/-- regression: the D18 witness is now harmless — the second `one` becomes `one_1`, the `Mul` still
+/-- regression: the D18 witness is harmless — the second `one` becomes `one_1`, the `Mul` still
 reads the first, the graph stays well-formed -/
 theorem d18_fixed :
-    (registerInits d18Host [("one", "A")]).map (fun r => (r.2.map (·.1), r.1.nodes.map (·.inputs), wfGraph [] r.1)) =
+    (registerInits (collectNames 10 d18Host) d18Host [("one", "A")]).map
+        (fun r => (r.2.1.map (·.1), r.1.nodes.map (·.inputs), wfGraph [] r.1)) =
       some (["one_1"], d18Host.nodes.map (·.inputs), true) := by
   decide +kernel
 
